@@ -41,7 +41,40 @@ def run(ctx):
     try:
         d, changed = extract_tables.regenerate()
     except Exception as e:
-        ctx.violation("translator", {"broken": "translator tools/extract_tables.py no longer understands the source: %s" % e}, no_input=True)
+        # the translator no longer understands the source (the code was restructured): the theorems cannot be re-checked against
+        # the code, so the property is no longer shown to hold; the documented table alone still gives an oracle for the
+        # instantiation findings, which is used to search for a concrete failing input
+        found = 0
+        try:
+            import re
+            doc = open(os.path.join(vlib.REPO, "doc/analysis_passes.md")).read()
+            sec = doc[doc.index("### BN254 specific circuit"):]
+            sec = sec[: sec.index("\n### ", 5)]
+            rows = []
+            for line in sec.split("\n"):
+                m = re.match(r"\|\s*`([^`]+)`\s*\|\s*(x?)\s*\|\s*(x?)\s*\|", line)
+                if m:
+                    rows.append((m.group(1), m.group(2) == "x", m.group(3) == "x"))
+            spec = spec_tables({"doc": rows})
+            names = sorted(spec["GOLDILOCKS"] | spec["BLS12_381"])
+            reqs, meta = [], []
+            for c in CURVES:
+                for n in names:
+                    reqs.append(json.dumps({"src": "template T() { component c = %s(); }" % n, "curve": c}))
+                    meta.append((c, n))
+            for (c, n), i, rq in zip(meta, vlib.run_harness("defpasses", reqs), reqs):
+                ir = json.loads(i) if i.startswith("{") else {"error": i}
+                flagged = sum(1 for r in ir.get("reports", []) if r["id"] == "CS0016")
+                want = 1 if n in spec[c] else 0
+                if "error" in ir or flagged != want:
+                    found += 1
+                    ctx.violation("c11-table %s %s" % (c, n), {"stage": "L1 documented table (search after the translator broke)", "input": rq, "curve": c, "template": n,
+                                                               "implementation_flags": flagged, "documented": want, "error": ir.get("error"),
+                                                               "broken": "translator tools/extract_tables.py: %s" % e})
+        except Exception as e2:
+            ctx.say("search after translator failure did not run: %s" % e2)
+        if not found:
+            ctx.violation("translator", {"broken": "translator tools/extract_tables.py no longer understands the source: %s" % e}, no_input=True)
         ctx.coverage["evaluations"] = 1
         return
     ctx.coverage["tables_regenerated_from_source"] = True
